@@ -371,7 +371,7 @@ struct OperandSignature {
   template<uint32_t FieldMask>
   [[nodiscard]]
   ASMJIT_INLINE_CONSTEXPR bool has_field(uint32_t value) const noexcept {
-    return (_bits & FieldMask) != value << Support::ctz_const<FieldMask>;
+    return (_bits & FieldMask) == value << Support::ctz_const<FieldMask>;
   }
 
   template<uint32_t FieldMask>
